@@ -637,7 +637,11 @@ def main():
         for x in errors:
             print("py2coq_emitorder: " + x)
         sys.exit(2)
-    known = table.get("known_finding_sites", [])
+    known_all = table.get("known_finding_sites", [])
+    known = [k for k in known_all if k in matched]
+    gone = [k for k in known_all if k not in matched]
+    if gone:
+        print("note: known-finding sites no longer present in the source (repaired?): %s" % ", ".join(gone))
     lines = [
         "(* GENERATED by translator/py2coq_emitorder.py from the current exo source and coq/Determ/sites_reviewed.json;",
         "   do not edit.  One record per hash-order / identity-value site of the scanned modules. *)",
@@ -659,6 +663,11 @@ def main():
     lines.append("].")
     lines.append("")
     lines.append("Definition known_finding_sites : list string := [%s]." % "; ".join(coq_str(k) for k in known))
+    lines.append("")
+    lines.append("(* does compile_to_strings emit the static helpers through sorted(needed_helpers)?  (site "
+                 "static-helpers-sorted present and the unsorted comprehension static-helpers absent) *)")
+    lines.append("Definition helpers_emission_sorted : bool := %s."
+                 % ("true" if "static-helpers-sorted" in matched and "static-helpers" not in matched else "false"))
     lines.append("")
     if a.out:
         open(a.out, "w").write("\n".join(lines) + "\n")
